@@ -63,3 +63,13 @@ Definition diff_dt (a b : Z) : Q := inject_Z (a - b) / inject_Z ns_per_s.
 (* dt.with_time_zone(tz) *)
 Definition zoned : Type := (Z * string)%type.
 Definition tz_convert (d : zoned) (zone : string) : zoned := (fst d, zone).
+
+(* the VM operations on zoned values: Zoned::checked_add / checked_sub keep the zone of
+   the left operand, Zoned::since only looks at the instants *)
+Definition zadd (d : zoned) (q : Q) : res zoned :=
+  match add_dt (fst d) q with Ok t => Ok (t, snd d) | Err e => Err e end.
+Definition zsub (d : zoned) (q : Q) : res zoned :=
+  match sub_dt (fst d) q with Ok t => Ok (t, snd d) | Err e => Err e end.
+Definition zdiff (a b : zoned) : Q := diff_dt (fst a) (fst b).
+Definition res_map {A B} (f : A -> B) (r : res A) : res B :=
+  match r with Ok a => Ok (f a) | Err e => Err e end.
